@@ -698,10 +698,78 @@ def _fold_constants(self) -> None:
 ModuleInliner._fold_constants = _fold_constants
 
 
-def inline_package(trees: Dict[str, ast.Module], packages: Dict[str, bool], known_functions: Set[str], known_constants: Set[str]) -> List[str]:
+def _fingerprint(fn) -> Set[str]:
+    return {(n.func.attr if isinstance(n.func, ast.Attribute) else getattr(n.func, "id", "?")) for n in ast.walk(fn) if isinstance(n, ast.Call)}
+
+
+def undo_renames(trees: Dict[str, ast.Module], known_functions: Set[str], signatures: Dict[str, dict]) -> List[str]:
+    """A known private function that is missing while exactly one *unknown* function of the same scope (module level, or the same
+    class) has its parameter list (or, failing that, clearly the same set of callees) was renamed: give it its old name back
+    (definition and every reference in the package), so that the rules find their anchor and the function is not mistaken for an
+    extracted helper."""
+    log: List[str] = []
+    renames: Dict[str, str] = {}  # new name -> old name (names must be unique package-wide to be rewritten safely)
+    for mod, tree in trees.items():
+        scopes: List[Tuple[Optional[str], List[ast.AST]]] = [(None, [s for s in tree.body if isinstance(s, FuncNode)])]
+        for st in tree.body:
+            if isinstance(st, ast.ClassDef):
+                scopes.append((st.name, [m for m in st.body if isinstance(m, FuncNode)]))
+        for cls, fns in scopes:
+            prefix = f"{mod}:{cls}." if cls else f"{mod}:"
+            present = {f.name for f in fns}
+            known_here = {k[len(prefix):] for k in known_functions if k.startswith(prefix) and "." not in k[len(prefix):] and "<locals>" not in k}
+            missing = sorted(known_here - present)
+            unknown = [f for f in fns if f.name not in known_here and not (f.name.startswith("__") and f.name.endswith("__"))]
+            for k in missing:
+                if not k.startswith("_"):
+                    continue  # public names are API: a vanished public function is a real change
+                sig = signatures.get(prefix + k)
+                if not sig:
+                    continue
+                cands = [u for u in unknown if [a.arg for a in u.args.posonlyargs + u.args.args + u.args.kwonlyargs] == sig["params"]]
+                if len(cands) != 1:
+                    want = set(sig.get("calls", []))
+                    scored = []
+                    for u in unknown:
+                        got = _fingerprint(u)
+                        if want and got:
+                            j = len(want & got) / len(want | got)
+                            if j >= 0.6:
+                                scored.append((j, u))
+                    scored.sort(key=lambda t: -t[0])
+                    cands = [scored[0][1]] if scored and (len(scored) == 1 or scored[0][0] - scored[1][0] >= 0.2) else []
+                if len(cands) == 1 and cands[0].name not in renames:
+                    renames[cands[0].name] = k
+                    unknown = [u for u in unknown if u is not cands[0]]
+                    log.append(f"{mod}: `{(cls + '.') if cls else ''}{cands[0].name}` is the renamed `{k}`")
+    if not renames:
+        return log
+    # the new names must not be used for anything else in the package
+    counts: Dict[str, int] = {}
+    for tree in trees.values():
+        for n in ast.walk(tree):
+            if isinstance(n, FuncNode) and n.name in renames:
+                counts[n.name] = counts.get(n.name, 0) + 1
+    safe = {new: old for new, old in renames.items() if counts.get(new, 0) == 1}
+    for tree in trees.values():
+        for n in ast.walk(tree):
+            if isinstance(n, FuncNode) and n.name in safe:
+                n.name = safe[n.name]
+            elif isinstance(n, ast.Name) and n.id in safe:
+                n.id = safe[n.id]
+            elif isinstance(n, ast.Attribute) and n.attr in safe:
+                n.attr = safe[n.attr]
+            elif isinstance(n, ast.alias) and n.name in safe:
+                n.name = safe[n.name]
+    return log
+
+
+def inline_package(trees: Dict[str, ast.Module], packages: Dict[str, bool], known_functions: Set[str], known_constants: Set[str], signatures: Optional[Dict[str, dict]] = None) -> List[str]:
     """Run the transparency pre-pass over all modules of the package at once (helpers and constants imported from a sibling
     module are followed through `from X import name [as alias]`).  `packages[mod]` says whether mod is a package (__init__)."""
     log: List[str] = []
+    if signatures:
+        log.extend(undo_renames(trees, known_functions, signatures))
     inl: Dict[str, ModuleInliner] = {}
     consts: Dict[str, Dict[str, ast.AST]] = {}
     for mod, tree in trees.items():
